@@ -351,7 +351,7 @@ pub fn run(rep: &Report) {
     );
     rep.assume("the faulted variant makes every earlier commit durable first, because it ends in an unclean reopen");
     let n = match rep.tier {
-        Tier::Quick => 40_000u64,
+        Tier::Quick => 120_000u64,
         Tier::Thorough => 800_000u64,
     };
     run_cases(
